@@ -396,7 +396,7 @@ def augment(prop, lines, seed, budget=40000, mined=None):
     cand = [l for l in lines if l.split(" ", 1)[0] in STR_OPS or l.split(" ", 1)[0] in PTR_ARGS]
     if not cand and not any(l.startswith(("index_str", "from_tokens")) for l in lines): return []
     # short lines first (the exhaustive scopes), then a random sample
-    short = sorted(set(l for l in cand if len(l) <= 24))[:1200]
+    short = sorted(set(l for l in cand if len(l) <= 24), key=lambda l: (len(l), l))[:1200]
     rest = rng.sample(cand, min(1800, len(cand))) if cand else []
     seen, out = set(lines), []
     out.extend(same_length_families(lines, rng))     # repeats are the point here: no de-duplication
